@@ -17,6 +17,12 @@ Theorem tracer_has_no_other_exit : gc_recurse_returns = 2 /\ gc_mark_shape_ok = 
 Proof. exact MarkSource.source_tracer_exits. Qed.
 Print Assumptions tracer_has_no_other_exit.
 
+(* the internal objects of heap Zip / Slice / Range are allocated with new (managed), so containers held only by
+   such a view are reachable in the sense of the theorems: view -> internal Tuple / Range -> inputs *)
+Theorem view_internals_are_managed : view_internals_registered = true.
+Proof. exact MarkSource.source_view_internals. Qed.
+Print Assumptions view_internals_are_managed.
+
 Theorem threshold_model_matches_source : gc_threshold_shape_ok = true /\ gc_finaliser_alloc_widens = true.
 Proof. exact MarkSource.source_threshold. Qed.
 Print Assumptions threshold_model_matches_source.
